@@ -65,6 +65,9 @@ func runReplays(propID string, reqs []replayReq) []replayRes {
 	var groups []*group
 	wit := map[string]*group{}
 	for i, q := range reqs {
+		if q.tries < 0 {
+			continue
+		}
 		if q.kind == "witness" {
 			k := q.job.Dir + "|" + q.job.Harness
 			g := wit[k]
